@@ -18,18 +18,18 @@ import (
 )
 
 type CheckSpec struct {
-	ID          string
-	Jobs        func(tier string) []Job
-	Explanation string
-	Rule        string
-	Bounds      map[string]string // tier -> bound statement
-	Assumptions []string
-	Outside     string
-	Replay      string // "native" (default) | "engine"
-	Extra       func(tier string, ev *Evidence) (violations []string, err error) // non-engine side conditions
-	Lockset     bool
+	ID           string
+	Jobs         func(tier string) []Job
+	Explanation  string
+	Rule         string
+	Bounds       map[string]string // tier -> bound statement
+	Assumptions  []string
+	Outside      string
+	Replay       string                                                           // "native" (default) | "engine"
+	Extra        func(tier string, ev *Evidence) (violations []string, err error) // non-engine side conditions
+	Lockset      bool
 	NoEngineJobs bool // the check's work happens in Extra (C12)
-	Differential int   // number of sample vectors run through engine-concrete and native and compared
+	Differential int  // number of sample vectors run through engine-concrete and native and compared
 }
 
 type Evidence struct {
